@@ -45,6 +45,13 @@ pub enum Item {
     ReuseLeaf { j: u32, kind: u8, n: u8 },
     /// two textually identical blocks in one attribute value
     TwoBlocks { j: u32, site: u8 },
+    /// a group attribute holding the occurrence, read as a variable by `reads` children (a
+    /// group's attributes are variables holding the expression TEXT: the group's own output
+    /// attribute is one evaluation, every reading child is one more)
+    GroupLazy { j: u32, reads: u8, in_id: bool },
+    /// an element whose expression holds `n` occurrences as function arguments; whatever the
+    /// function does with them, every argument is an occurrence (the value is not observed)
+    Args { j: u32, n: u8, form: u8 },
     /// a <defaults> block (no random occurrence of its own)
     Defaults,
     /// element without any random occurrence
@@ -183,6 +190,33 @@ fn render_items(items: &[Item], in_template: bool, out: &mut String) {
                 };
                 out.push_str(&s);
                 out.push('\n');
+            }
+            Item::GroupLazy { j, reads, in_id } => {
+                out.push_str(&format!("<g lz{j}=\"{B}\">"));
+                for r in 0..*reads {
+                    if *in_id {
+                        out.push_str(&format!("<rect id=\"b{j}r{r}_$lz{j}\" xy=\"0 {j}\" wh=\"2\"/>"));
+                    } else {
+                        out.push_str(&format!("<rect xy=\"0 {j}\" wh=\"2\" data-k=\"b{j}r{r}_$lz{j}\"/>"));
+                    }
+                }
+                out.push_str("</g>\n");
+            }
+            Item::Args { j, n, form } => {
+                let a = "randint(0, 999999)";
+                let e = match (form, n) {
+                    (0, _) => format!("if(1, {a}, {a})"),
+                    (1, _) => format!("if(0, {a}, {a})"),
+                    (2, _) => format!("select(0, {a}, {a}, {a})"),
+                    (3, _) => format!("and(0, {a})"),
+                    (4, _) => format!("or(1, {a})"),
+                    (5, _) => format!("head({a}, {a})"),
+                    (6, _) => format!("min({a}, {a}, {a})"),
+                    (7, _) => format!("if(1, 5, {a})"),
+                    (8, _) => format!("count({a}, {a})"),
+                    _ => format!("0 * {a} + mix({a}, {a}, 0.5)"),
+                };
+                out.push_str(&format!("<rect xy=\"0 {j}\" wh=\"2\" data-z=\"{{{{{e}}}}}\"/>\n"));
             }
             Item::Defaults => out.push_str("<defaults><rect rx=\"1\"/><circle class=\"dc\"/><_ match=\"text line\" class=\"dd\"/></defaults>\n"),
             Item::Plain => out.push_str("<rect xy=\"5 5\" wh=\"1\"/>\n"),
@@ -354,6 +388,19 @@ impl<'a> Model<'a> {
                         }
                     }
                 }
+                Item::GroupLazy { j, reads, .. } => {
+                    let v = self.beacon(0);
+                    self.obs.push((format!("lz{j}=\"|data"), v.to_string()));
+                    for r in 0..*reads {
+                        let v = self.beacon(0);
+                        self.obs.push((format!("b{j}r{r}_|data"), v.to_string()));
+                    }
+                }
+                Item::Args { n, .. } => {
+                    for _ in 0..*n {
+                        self.beacon(0);
+                    }
+                }
                 Item::TwoBlocks { j, .. } => {
                     let key = match tmark {
                         Some(m) => format!("{m}t{j}"),
@@ -521,7 +568,17 @@ fn gen_items(w: &mut Rng, j: &mut u32, depth: usize, n_templates: usize, in_temp
                 site: w.pick(SITES).to_string(),
             }),
             7 if w.chance(1, 2) => v.push(Item::RandomF { j: jj }),
-            7 => v.push(Item::TwoBlocks { j: jj, site: w.below(4) as u8 }),
+            7 if w.chance(1, 2) => v.push(Item::TwoBlocks { j: jj, site: w.below(4) as u8 }),
+            7 if !in_template && w.chance(1, 2) => v.push(Item::GroupLazy { j: jj, reads: 1 + w.below(2) as u8, in_id: w.chance(1, 2) }),
+            7 => {
+                let form = w.below(10) as u8;
+                let n = match form {
+                    0 | 1 | 5 | 8 => 2,
+                    2 | 6 | 9 => 3,
+                    _ => 1,
+                };
+                v.push(Item::Args { j: jj, n, form })
+            }
             17 if depth == 0 && !in_template => v.push(Item::ReuseLeaf {
                 j: jj,
                 kind: w.below(2) as u8,
@@ -599,6 +656,13 @@ const MALFORMED: &[(&str, &str)] = &[
     ("arity-if", "{{if(1, 2)}}"),
     ("undefined-variable", "{{$nope + 1}}"),
     ("circular-variable", "{{$ca}}"),
+    // the malformed part sits in an argument a lazy implementation might never look at
+    ("unknown-function-in-untaken-branch", "{{if(1, 5, nosuch(3))}}"),
+    ("arity-in-untaken-branch", "{{if(0, sin(), 7)}}"),
+    ("undefined-variable-in-untaken-branch", "{{if(1, 2, $nope)}}"),
+    ("unknown-function-after-short-circuit", "{{and(0, nosuch(1))}}"),
+    // a cycle among a group's own attributes while the same names also exist outside it
+    ("circular-group-locals", "{{$cga}}"),
 ];
 
 fn malformed_site(site: &str, e: &str) -> String {
@@ -658,6 +722,8 @@ impl Engine for C14 {
             let neighbour = *w.pick(&["alone", "fwd-sibling", "fwd-sibling-before", "inside-retried-group", "after-retried-group"]);
             let mal = malformed_site(site, expr);
             let pre = if kind == "circular-variable" { "<var ca=\"$cb\"/><var cb=\"$ca\"/>" } else { "" };
+            // (the group is put around the whole body below)
+            let group_cycle = kind == "circular-group-locals";
             let body = match neighbour {
                 "alone" => mal,
                 "fwd-sibling" => format!("{mal}<rect xy=\"#later|h\" wh=\"1\"/><rect id=\"later\" wh=\"2\"/>"),
@@ -670,7 +736,11 @@ impl Engine for C14 {
                 seed: w.below(1000),
                 templates: vec![],
                 items: vec![],
-                doc: Some(format!("<svg>{pre}{body}</svg>")),
+                doc: Some(if group_cycle {
+                    format!("<svg><var cga=\"1\" cgb=\"2\"/><g cga=\"$cgb\" cgb=\"$cga\">{body}</g></svg>")
+                } else {
+                    format!("<svg>{pre}{body}</svg>")
+                }),
                 label: format!("{kind}:{site}:{neighbour}"),
                 cfg: None,
             };
